@@ -27,7 +27,9 @@ META = {
         'exact when representable, idempotent on a second trip); evaluate(e) against the value parsed from the output '
         'of PRINT e for generated numeric and string expressions (including soft and hard errors); nested lists of 1-3 '
         'dimensions into DIMmed arrays of all four types, both OPTION BASE settings, read back as lists and element-wise '
-        'from BASIC.'),
+        'from BASIC. The same round trips under memory pressure: string space nearly full with and without garbage, '
+        'new and existing variables of every type, scalars and arrays - the value must come back (and every other variable must '
+        'be unchanged), or the call must raise Out of memory / Out of string space.'),
     'level_note': (
         'Trusted: the harness, Fraction arithmetic, the codepage tables as returned by pcbasic.data.read_codepage (the '
         'repertoire is taken from them). Not pinned, hence not generated: non-integer Python values for % variables; '
@@ -37,7 +39,9 @@ META = {
         'bytes in a double-byte codepage and double-byte characters containing the box-drawing bytes (their reading '
         'depends on the deliberate box-drawing protection); lists that do not match the DIMmed shape; expressions with '
         'RND/TIMER/INKEY$ (two evaluations differ legitimately). PRINT output is compared within the C07 bound '
-        '(< 1 unit of the last digit shown, plus the rounding of a 56-bit double to a 53-bit Python float).'),
+        '(< 1 unit of the last digit shown, plus the rounding of a 56-bit double to a 53-bit Python float). Under memory '
+        'pressure the statement does not say when memory is exhausted: BASIC errors 7 and 14 are accepted from set_variable at any '
+        'fill level, the variable concerned is then not judged (it is set again later); nothing else is accepted.'),
     'rule': ('case = (kind, variable type, value) / (codepage, string) / expression text / (type, base, dims, list); distinct '
              'by that tuple; every case is non-trivial (a different value crossing the API)'),
     'design_ref': 'DESIGN.md section 4 C43',
@@ -48,6 +52,8 @@ META = {
         'int_roundtrips', 'bytes_roundtrips', 'unicode_roundtrips', 'dbcs_strings_seen', 'single_roundtrips',
         'single_inexact_seen', 'double_roundtrips', 'evaluate_numeric_compared', 'evaluate_string_compared',
         'evaluate_error_both_seen', 'evaluate_soft_error_seen', 'arrays_roundtrips', 'arrays_3d_seen', 'array_elements_read_from_basic',
+        'pressure_roundtrips', 'pressure_new_string_scalar_roundtrips', 'pressure_collection_during_set_seen',
+        'pressure_out_of_memory_seen', 'pressure_string_array_roundtrips',
     ]},
     'timeout': {'quick': 900, 'thorough': 10800},
 }
@@ -66,12 +72,14 @@ def plan(tier, seed):
         shards += [{'kind': 'unicode', 'n': 1200, 'part': i, 'parts': 2} for i in range(2)]
         shards += [{'kind': 'evaluate', 'n': 5000, 'part': i} for i in range(3)]
         shards += [{'kind': 'arrays', 'n': 1500, 'part': i} for i in range(2)]
+        shards += [{'kind': 'pressure', 'n': 1200, 'part': i} for i in range(2)]
     else:
         shards += [{'kind': 'floats', 'n': 400000, 'part': i} for i in range(8)]
         shards += [{'kind': 'bytes', 'n': 250000, 'part': i} for i in range(4)]
         shards += [{'kind': 'unicode', 'n': 12000, 'part': i, 'parts': 6} for i in range(6)]
         shards += [{'kind': 'evaluate', 'n': 60000, 'part': i} for i in range(10)]
         shards += [{'kind': 'arrays', 'n': 20000, 'part': i} for i in range(8)]
+        shards += [{'kind': 'pressure', 'n': 25000, 'part': i} for i in range(8)]
     return shards
 
 
@@ -85,6 +93,7 @@ def run_shard(spec, res):
         _bytes(res, rng, 0, directed=True)
         _evaluate(res, rng, 0, directed=True)
         _arrays(res, rng, 0, directed=True)
+        _pressure(res, rng, 0, directed=True)
     elif kind == 'floats':
         _floats(res, rng, spec['n'])
     elif kind == 'bytes':
@@ -95,6 +104,8 @@ def run_shard(spec, res):
         _evaluate(res, rng, spec['n'])
     elif kind == 'arrays':
         _arrays(res, rng, spec['n'])
+    elif kind == 'pressure':
+        _pressure(res, rng, spec['n'])
     else:
         raise ValueError(kind)
 
@@ -671,3 +682,206 @@ def _shape(l):
         s.append(len(l))
         l = l[0] if l else None
     return s
+
+
+# -------------------------------------------------------------------------------------------------
+# round trips under memory pressure
+
+def _fill(box, target, garbage):
+    """
+    Use up free memory until FRE(0) <= target without ever forcing a collection. garbage=True: by reassigning one
+    variable (every earlier value stays behind as garbage in string space); False: by live strings G0$, G1$, ...
+    Returns (free, names of live filler variables created).
+    """
+    live = []
+    box.ex(b'X$=""')
+    for i in range(60):
+        free = int(box.ev(b'FRE(0)'))
+        if free <= target:
+            break
+        if garbage:
+            out = box.ex(b'X$=STRING$(%d,65)' % max(1, min(250, free - (target - 20))))
+        else:
+            # a new live variable each time; its record (name + 4 bytes) needs room as well
+            k = min(250, free - target - 10)
+            if k < 1:
+                break
+            out = box.ex(b'G%d$=STRING$(%d,66)' % (i, k))
+            live.append('G%d$' % i)
+        if out:
+            # an error message (out of memory): as full as it gets
+            break
+    return int(box.ev(b'FRE(0)')), live
+
+
+def _pressure_value(rng, sigil, n):
+    if sigil == '$':
+        a = rng.randrange(256)
+        return bytes((a + j * 7) % 256 for j in range(n))
+    if sigil == '%':
+        return rng.randint(-32768, 32767)
+    # exactly representable in both float types
+    return rng.randint(-(1 << 20), 1 << 20) / 8.0
+
+
+def _pressure(res, rng, n, directed=False):
+    from .. import harness
+    from pcbasic.basic.base import error
+    trials = []
+    if directed:
+        # a new string scalar whose value leaves 0..14 bytes free, names of several lengths, garbage present
+        for nlen in (1, 2, 8, 20, 39):
+            for d in range(-2, 15):
+                for target in (60, 250):
+                    trials.append(('new-string-scalar', nlen, d, target, True))
+        for d in range(-2, 12, 2):
+            trials.append(('existing-string-scalar', 2, d, 120, True))
+            trials.append(('string-array', 3, d, 250, True))
+            trials.append(('new-numeric-scalar', 8, d, 30, True))
+            trials.append(('new-string-scalar', 8, d, 120, False))
+        # an array that does not exist yet (auto-dimensioned on first use) receiving strings
+        for d in (0, 4, 8, 16):
+            for target in (40, 60, 120):
+                trials.append(('new-string-array', 3, d, target, True))
+    for _ in range(n):
+        q = rng.random()
+        op = ('new-string-scalar' if q < 0.4 else 'existing-string-scalar' if q < 0.55 else 'string-array' if q < 0.7
+              else 'new-numeric-scalar' if q < 0.8 else 'existing-numeric-scalar' if q < 0.87 else 'numeric-array' if q < 0.93
+              else 'new-string-array')
+        trials.append((op, rng.choice((1, 2, 2, 5, 8, 13, 25, 39, 40)), rng.choice((-8, -3, -1, 0, 1, 2, 3, 4, 5, 6, 8, 10, 13, 20, 40)),
+                       rng.choice((20, 60, 120, 250, 250, 400)), rng.random() < 0.75))
+    counter = 0
+    sampled = 0
+    box = None
+    known = {}
+
+    def fresh_box():
+        nonlocal box, known
+        if box is not None:
+            box.close()
+        box = harness.Box()
+        box.ex(b'CLEAR ,%d' % rng.choice((5600, 6000, 7000, 9000)))
+        known = {}
+        box.ex(b'DIM PA$(5),PB$(2,2),PN%(6),PD#(3)')
+        for name, val in (('ES$', b'existing string'), ('ET$', b''), ('EI%', -12345), ('EF!', 2.5), ('ED#', -1234.125)):
+            box.set(name, val)
+            known[name] = val
+        for name, val in (('PA$()', [b'a', b'', b'ccc', b'dddd', b'e' * 20, b'\0\xff']), ('PN%()', [1, -2, 3, -4, 5, -6, 32767]),
+                          ('PD#()', [0.5, -0.25, 1e10, 3.0])):
+            box.set(name, val)
+            known[name] = val
+
+    def verify_others(case, skip):
+        for nm, want in list(known.items()):
+            if nm == skip:
+                continue
+            try:
+                got = box.get(nm)
+            except (harness.Internal, error.BASICError) as e:
+                key = e.key if isinstance(e, harness.Internal) else 'api:basic-error-%s-on-get' % e.err
+                res.violation(key, 'get_variable(%s) after %r: %s' % (nm, case, e), case)
+                known.pop(nm, None)
+                continue
+            if got != want:
+                res.violation('pressure:other-variable-changed', 'after %r the variable %s reads %r, it was set to %r'
+                              % (case, nm, got if not isinstance(got, (bytes, list)) else got[:6], want if not isinstance(want, (bytes, list)) else want[:6]), case)
+                known[nm] = got
+
+    try:
+        fresh_box()
+        for op, nlen, d, target, garbage in trials:
+            counter += 1
+            # start over when little is left even after a collection
+            box.ex(b'X$=""')
+            if int(box.ev(b'FRE("")')) < target + 150 or len(known) > 60:
+                fresh_box()
+            try:
+                free, live = _fill(box, target, garbage)
+            except harness.Internal as e:
+                res.violation(e.key, str(e), ['fill', target, garbage])
+                fresh_box()
+                continue
+            sigil = '$'
+            if op == 'new-string-scalar':
+                name = ('Q%d' % counter + 'Z' * 40)[:nlen - 1] + '$' if nlen > len('Q%d' % counter) + 1 else 'Q%d$' % counter
+                val = _pressure_value(rng, '$', max(0, min(255, free - d)))
+            elif op == 'existing-string-scalar':
+                name = rng.choice(('ES$', 'ET$'))
+                val = _pressure_value(rng, '$', max(0, min(255, free - d)))
+            elif op == 'new-numeric-scalar':
+                sigil = rng.choice('%!#')
+                name = ('R%d' % counter + 'Y' * 40)[:max(nlen - 1, len('R%d' % counter))] + sigil
+                val = _pressure_value(rng, sigil, 0)
+            elif op == 'existing-numeric-scalar':
+                name = rng.choice(('EI%', 'EF!', 'ED#'))
+                sigil = name[-1]
+                val = _pressure_value(rng, sigil, 0)
+            elif op == 'string-array':
+                name = rng.choice(('PA$()', 'PB$()'))
+                total = max(0, free - d)
+                if name == 'PA$()':
+                    lens = [min(255, total // 6 + (1 if i < total % 6 else 0)) for i in range(6)]
+                    val = [_pressure_value(rng, '$', k) for k in lens]
+                else:
+                    lens = [min(255, total // 9 + (1 if i < total % 9 else 0)) for i in range(9)]
+                    flat = [_pressure_value(rng, '$', k) for k in lens]
+                    val = [flat[0:3], flat[3:6], flat[6:9]]
+            elif op == 'numeric-array':
+                name = rng.choice(('PN%()', 'PD#()'))
+                val = [_pressure_value(rng, '%', 0) for _ in range(7)] if name == 'PN%()' else [_pressure_value(rng, '#', 0) for _ in range(4)]
+            else:
+                # an array that does not exist yet: BASIC dimensions it 0..10 on first use
+                name = 'NA%d$()' % counter
+                per = max(0, (free - d) // 11)
+                val = [_pressure_value(rng, '$', min(255, per)) for _ in range(11)]
+            case = ['pressure', op, name, 'free %d' % free, 'garbage' if garbage else 'no garbage',
+                    val if not isinstance(val, list) else 'list']
+            res.case(('pressure', op, nlen, d, target, garbage, counter))
+            try:
+                box.set(name, val)
+            except error.BASICError as e:
+                if e.err in (7, 14):
+                    res.count('pressure_out_of_memory_seen')
+                    known.pop(name, None)
+                    verify_others(case, name)
+                else:
+                    res.violation('api:basic-error-%s-on-valid-value' % e.err, '%r raised %r' % (case, e), case)
+                continue
+            except harness.Internal as e:
+                res.violation('pressure:%s:%s' % (op, e.key), 'set_variable under memory pressure: %s' % e, case)
+                fresh_box()
+                continue
+            try:
+                got = box.get(name)
+                seen = box.ev(name.encode()) if not name.endswith('()') else None
+                after = int(box.ev(b'FRE(0)'))
+            except error.BASICError as e:
+                res.violation('api:basic-error-%s-on-get' % e.err, 'get_variable(%s) after a successful set_variable: %r' % (name, e), case)
+                continue
+            except harness.Internal as e:
+                res.violation('pressure:%s:%s' % (op, e.key), 'get_variable(%s) after a successful set_variable (%d bytes free before, %s): %s'
+                              % (name, free, 'garbage present' if garbage else 'no garbage', e), case)
+                fresh_box()
+                continue
+            res.count('pressure_roundtrips')
+            res.count('pressure_%s_roundtrips' % op.replace('-', '_'))
+            if after > free:
+                res.count('pressure_collection_during_set_seen')
+            if got != val:
+                res.violation('pressure:%s:value' % op, 'set_variable(%s) with %d bytes free (%s) reads back %r, set to %r'
+                              % (name, free, 'garbage present' if garbage else 'no garbage',
+                                 got[:8] if isinstance(got, (bytes, list)) else got, val[:8] if isinstance(val, (bytes, list)) else val), case)
+                known.pop(name, None)
+            else:
+                if seen is not None and seen != val:
+                    res.violation('pressure:%s:api-set-not-seen-by-basic' % op, '%s set to %r, the expression evaluates to %r'
+                                  % (name, val[:8] if isinstance(val, bytes) else val, seen[:8] if isinstance(seen, bytes) else seen), case)
+                known[name] = val
+            verify_others(case, name)
+            if sampled < 2 and op == 'new-string-scalar':
+                sampled += 1
+                res.sample({'kind': 'pressure', 'op': op, 'name': name, 'free_before': free, 'free_after': after, 'value_length': len(val),
+                            'garbage': garbage})
+    finally:
+        if box is not None:
+            box.close()
